@@ -412,6 +412,28 @@ pub fn run_lang(which: Which, tier: Tier) -> i32 {
             }
         }
     }));
+    // stream 4: the valid single-pattern rows of the repository's match_test.rs
+    {
+        let (rows, _) = crate::corpus::match_test_rows();
+        let mut pats: Vec<String> = rows
+            .into_iter()
+            .filter(|r| r.kind == crate::corpus::RowKind::Valid)
+            .map(|r| r.pattern)
+            .collect();
+        pats.sort();
+        pats.dedup();
+        let n = pats.len() as u64;
+        res.merge(run_cases(&ctx, 4, n, |_rng, i, st| {
+            let Ok(re) = parse_to_ir(&pats[i as usize]) else { return CaseOutcome::Skipped };
+            let cfg = ScannerCfg::single(vec![RefPattern { re, tt: 0, la: None }]);
+            st.count("repository_row_programs");
+            st.nontrivial(hash_of(&cfg));
+            match lang_check_cfg(&cfg, which, st) {
+                Ok(()) => CaseOutcome::Ok,
+                Err(v) => CaseOutcome::Violated(v),
+            }
+        }));
+    }
     let programs = res.stats.get("programs_built");
     let report = match which {
         Which::C02 => Report::new(
